@@ -6,6 +6,7 @@ import Driver.Keys
 import Driver.Cli
 import Driver.Format
 import Driver.Stack
+import Driver.Config
 import Driver.CompTable
 open Lean Driver MlaModel
 
@@ -41,6 +42,7 @@ def dispatch (j : Json) : Json :=
   | "format.consts" => cmdFormatConsts j
   | "stack.run" => cmdStackRun j
   | "stack.unwrap" => cmdStackUnwrap j
+  | "config.run" => cmdConfigRun j
   | "stack.header" => cmdStackHeader j
   | "comp.trace" => cmdCompTrace j
   | "comp.failsafe" => cmdCompFailsafe j
